@@ -18,10 +18,11 @@ def run(rep, tier, rng):
         g = P.Gen(rng, ticks=True)
         base = g.toplevel(rng.randrange(3, 9))
         faulty, pos, kind, ctx = P.inject_fault(rng, g, base)
-        pre = ["(import (verif host))"]
-        cases.append(("b%d" % i, "progx", ["std+host"] + pre + base))
-        cases.append(("f%d" % i, "progx", ["std+host"] + pre + faulty))
-        meta[i] = (pos + 1, kind, ctx, faulty[pos])
+        # effect-zz is assigned only by operands that stand AFTER a faulting operand: it must still be 0 at the end
+        pre = ["(import (verif host))", "(define effect-zz 0)"]
+        cases.append(("b%d" % i, "progx", ["std+host"] + pre + base + ["effect-zz"]))
+        cases.append(("f%d" % i, "progx", ["std+host"] + pre + faulty + ["effect-zz"]))
+        meta[i] = (pos + 2, kind, ctx, faulty[pos])
     impl = C.run_hx(cases)
     model = C.run_driver(cases)
     res = R.compare(rep, cases, impl, model, "evaluator/errors (RuschmModel/Eval.lean <-> interpreter.rs)")
